@@ -3,13 +3,17 @@
 rewritten, leader completeness, HardState monotonicity).
 
 Technique (DESIGN.md C15): explicit TLA+ specification spec/EtcdRaft.tla (plain and two-phase PreVote elections:
-CONSTANT PreVote) checked by TLC, bound to the real raft.RawNode code by
-  B1  TLC-generated behaviours (-simulate of MC_Raft3_sim*.cfg, PreVote = FALSE and TRUE) replayed in lockstep on
-      real RawNodes (raft.Config.PreVote accordingly) by raftsim; every projected state and the bag of in-flight
-      messages must agree with the spec;
+CONSTANT PreVote; simple membership changes - one voter added or removed at a time, applied when committed, every
+node counting quorums over its own configuration: CONSTANT ConfChange) checked by TLC, bound to the real
+raft.RawNode code by
+  B1  TLC-generated behaviours (-simulate of MC_Raft3_sim*.cfg, PreVote = FALSE and TRUE, ConfChange = FALSE and
+      TRUE) replayed in lockstep on real RawNodes (raft.Config.PreVote accordingly; ProposeConfChange /
+      ApplyConfChange for the conf changes) by raftsim; every projected state (with ConfChange: also every node's
+      voter set and the ids of the leader's Progress map) and the bag of in-flight messages must agree with the spec;
   B3  attack schedules: TLC counterexamples of the spec with ONE rule weakened (MC_RaftAtk_*.cfg), replayed on
       the real RawNodes - correct code refuses the weakened step, code with that rule broken follows it;
-  B2  seeded random runs of 3 real RawNodes inside the spec's scope (with and without PreVote), validated line by
+  B2  seeded random runs of 3 real RawNodes inside the spec's scope (with and without PreVote, with and without
+      simple membership changes), validated line by
       line against EtcdRaft.tla by spec/TraceEtcdRaft.tla (every event must be the spec's action, every projection
       and the message bag equal);
   B1w spec/ReadyWindow.tla (one follower's log pipeline: unstable over storage, Ready, the application's save and
@@ -35,10 +39,16 @@ T0 = time.time()
 RAFTSIM_SRC = os.path.join(common.ROOT, "raftsim")
 ATTACK_FILE = os.path.join(common.SPEC, "EtcdRaft_attacks.json")
 FLAGS_CHEAP = ["VoteIgnoreVoted", "NoPersistVote", "VoteIgnoreLog", "QuorumMinusOne", "PreVoteResp"]
+# the two membership-change rules (about 100 k / 200 k states, 25 s with 4 workers each): regenerated in the thorough tier, the
+# stored schedules are replayed in both tiers
+FLAGS_CONF = ["ConfNoPending", "AddedVoterCaughtUp"]
 # CommitAnyTerm is regenerated only with C15_REGEN_ALL=1 (1.7 M states, 2-10 min depending on load); the stored
 # schedule in spec/EtcdRaft_attacks.json is always replayed
-FLAGS_ALL = FLAGS_CHEAP + ["HeartbeatCommit", "AppendTruncates"] + (["CommitAnyTerm"] if os.environ.get("C15_REGEN_ALL") else [])
-ATTACK_OPT = {"CommitAnyTerm": {"maxents": 1}, "PreVoteResp": {"prevote": True}}
+FLAGS_ALL = FLAGS_CHEAP + FLAGS_CONF + ["HeartbeatCommit", "AppendTruncates"] + (["CommitAnyTerm"] if os.environ.get("C15_REGEN_ALL") else [])
+ATTACK_OPT = {"CommitAnyTerm": {"maxents": 1}, "PreVoteResp": {"prevote": True},
+              "ConfNoPending": {"voters": [1, 2, 3]}, "AddedVoterCaughtUp": {"voters": [1, 2]}}
+# -simulate instances with ConfChange = TRUE: (cfg, maxents, prevote, genesis voters, depth = SimDepth of the cfg)
+SIM_CONF = [("MC_Raft3_sim_conf.cfg", 0, False, [1, 2], 40), ("MC_Raft3_sim_conf3.cfg", 1, False, [1, 2, 3], 45)]
 
 
 def log(msg):
@@ -76,9 +86,13 @@ REQUIRED_ACTIONS = ["Campaign", "Propose", "Heartbeat", "Crash.keep", "Restart",
                     # PreVote = TRUE behaviours: both phases, won and lost pre-votes, the stale-leader reply, a (pre-)vote
                     # response of the other phase reaching a candidate / pre-candidate (the per-state filter of stepCandidate)
                     "Deliver.PreVote", "Deliver.PreVoteResp", "Deliver.PreVoteResp.reject", "BecomePreCandidate", "PreVoteWon",
-                    "Deliver.stale.App+HB.prevote", "Deliver.stale.PreVote", "Deliver.PreVoteResp.to-candidate"]
+                    "Deliver.stale.App+HB.prevote", "Deliver.stale.PreVote", "Deliver.PreVoteResp.to-candidate",
+                    # ConfChange = TRUE behaviours: accepted and refused proposals, a configuration switched on a leader and on a follower
+                    "ProposeConfChange", "ProposeConfChange.refused", "ConfSwitch.leader", "ConfSwitch.follower"]
 # reported, not required in every run (rare branches): Crash.lose, Deliver.VoteResp.reject, Deliver.AppResp.reject,
-# PreVoteLost (about 10 of 600 PreVote behaviours), Deliver.VoteResp.to-precandidate
+# PreVoteLost (about 10 of 600 PreVote behaviours), Deliver.VoteResp.to-precandidate, SingleVoterElected, Restart.reapplies-conf,
+# LeaderOutsideItsConfig (a leader that removed itself), Deliver.unknown-peer (a response from a node that is not in the receiver's configuration),
+# ConfChange.without-effect-or-rejected (a voter added twice, a stranger removed, the last voter removed)
 
 
 def action_histogram(behaviours):
@@ -110,6 +124,9 @@ def action_histogram(behaviours):
                             inc("Deliver.stale.PreVote")
                 else:
                     inc("Deliver." + m["ty"])
+                    if (to is not None and to["up"] and to.get("cfg") is not None and m["fr"] not in to["cfg"]
+                            and m["ty"] in ("VoteResp", "PreVoteResp", "AppResp", "HBResp")):
+                        inc("Deliver.unknown-peer")
                     if m["rj"]:
                         inc("Deliver.%s.reject" % m["ty"])
                     if to is not None and to["up"]:
@@ -119,6 +136,14 @@ def action_histogram(behaviours):
                             inc("Deliver.VoteResp.to-precandidate")
             else:
                 inc(n)
+            if n == "ProposeConfChange" and s is not None:
+                e = s["n"][a["i"] - 1]["log"][-1]
+                if e["c"] == 0:
+                    inc("ProposeConfChange.refused")
+            if n == "Restart" and s is not None:
+                y = s["n"][a["i"] - 1]
+                if any(e.get("c") for e in y["log"][:y["commit"]]):
+                    inc("Restart.reapplies-conf")
             if prev is not None and s is not None:
                 for x, y in zip(prev["n"], s["n"]):
                     if y["role"] == "L" and x["role"] != "L":
@@ -131,11 +156,19 @@ def action_histogram(behaviours):
                         inc("PreVoteLost")
                     if y["up"] and x["up"] and y["commit"] > x["commit"]:
                         inc("CommitAdvance")
+                        if y.get("cfg") == x.get("cfg") and any(e.get("c") for e in y["log"][x["commit"]:y["commit"]]):
+                            inc("ConfChange.without-effect-or-rejected")
+                    if y["up"] and x["up"] and y.get("cfg") != x.get("cfg"):
+                        inc("ConfSwitch.leader" if y["role"] == "L" else "ConfSwitch.follower")
+                        if y["role"] == "L" and (s["n"].index(y) + 1) not in y["cfg"]:
+                            inc("LeaderOutsideItsConfig")
+                    if y["role"] == "L" and x["role"] != "L" and y.get("cfg") is not None and len(y["cfg"]) == 1:
+                        inc("SingleVoterElected")
             prev = s
     return h
 
 
-def tlc_simulate(cfg, num, depth, seed):
+def tlc_simulate(cfg, num, depth, seed):  # depth = SimDepth of the cfg: a behaviour is printed when it reaches that many states
     scheds = []
 
     def cb(line):
@@ -392,18 +425,31 @@ def main():
     if not QUICK:
         f_faults_pv = pool.submit(tlc_model_check, "MC_Raft3_prevote_faults.cfg", 4, 2000)
 
+    # ConfChange = TRUE (simple membership changes), voters {1,2} + outsider 3, changes add 3 / remove 1 / remove 2.
+    # quick: two accepted changes in a row (MC_Raft3_conf.cfg) and one accepted + one refused (MC_Raft3_conf_refuse.cfg), Campaign()
+    # of 1 and 3; thorough: two accepted + one refused with every node campaigning (MC_Raft3_conf_full.cfg) and three voters of
+    # which 2 and 3 are removed (MC_Raft3_conf_full3.cfg)
+    MC_CC_CFG, MC_CC_CFG2 = ("MC_Raft3_conf.cfg", "MC_Raft3_conf_refuse.cfg") if QUICK else ("MC_Raft3_conf_full.cfg", "MC_Raft3_conf_full3.cfg")
+    f_mc_cc = pool.submit(tlc_model_check, MC_CC_CFG, 3 if QUICK else 4, 600 if QUICK else 5000)
+    f_mc_cc2 = pool.submit(tlc_model_check, MC_CC_CFG2, 2 if QUICK else 4, 600 if QUICK else 5000)
+
     # ---- 2. TLC-generated behaviours
     sim_jobs = []
     nsim = 2 if QUICK else 6
     for k in range(nsim):
         for cfg, me in (("MC_Raft3_sim.cfg", 0), ("MC_Raft3_sim1.cfg", 1)):
             num = 60 if QUICK else 300
-            sim_jobs.append((me, False, pool.submit(tlc_simulate, cfg, num, 40, SEED * 1000 + k * 2 + me + 1)))
+            sim_jobs.append((me, False, pool.submit(tlc_simulate, cfg, num, 40, SEED * 1000 + k * 2 + me + 1), None))
     nsim_pv = 1 if QUICK else 4
     for k in range(nsim_pv):
         for cfg, me in (("MC_Raft3_sim_prevote.cfg", 0), ("MC_Raft3_sim1_prevote.cfg", 1)):
             num = 60 if QUICK else 300
-            sim_jobs.append((me, True, pool.submit(tlc_simulate, cfg, num, 40, SEED * 1000 + 500 + k * 2 + me + 1)))
+            sim_jobs.append((me, True, pool.submit(tlc_simulate, cfg, num, 40, SEED * 1000 + 500 + k * 2 + me + 1), None))
+    nsim_cc = 1 if QUICK else 4
+    for k in range(nsim_cc):
+        for j, (cfg, me, pv, voters, depth) in enumerate(SIM_CONF):
+            num = (300 if QUICK else 600) if j == 0 else (80 if QUICK else 200)
+            sim_jobs.append((me, pv, pool.submit(tlc_simulate, cfg, num, depth, SEED * 1000 + 700 + k * 2 + j + 1), voters))
     atk_jobs = {}
     live_flags = FLAGS_CHEAP if QUICK else FLAGS_ALL
     for fl in live_flags:
@@ -447,7 +493,8 @@ def main():
     nb2 = 1 if QUICK else 6
     for k in range(nb2):
         for prof, cfg in (("n3-spec", "TraceEtcdRaft.cfg"), ("n3-spec-one", "TraceEtcdRaft_one.cfg"),
-                          ("n3-spec-prevote", "TraceEtcdRaft_prevote.cfg"), ("n3-spec-prevote-one", "TraceEtcdRaft_prevote_one.cfg")):
+                          ("n3-spec-prevote", "TraceEtcdRaft_prevote.cfg"), ("n3-spec-prevote-one", "TraceEtcdRaft_prevote_one.cfg"),
+                          ("n3-spec-conf", "TraceEtcdRaft_conf.cfg"), ("n3-spec-conf12-prevote-one", "TraceEtcdRaft_conf12_prevote_one.cfg")):
             p = os.path.join(work, "b2-%s-%d.ndjson" % (prof, k))
             pr = subprocess.run([sim_bin, "random", "-seed", str(SEED * 100 + 50 + k), "-runs", str(12 if QUICK else 40), "-events", "300",
                                  "-nodes", "-1", "-msgs", "-profile", prof, "-out", p],
@@ -465,21 +512,24 @@ def main():
     seen = set()
     sim_total = 0
     sim_pv_total = 0
-    for me, pv, fj in sim_jobs:
+    sim_cc_total = 0
+    for me, pv, fj, cc_voters in sim_jobs:
         r, scheds = fj.result()
         if r.rc != 0 or r.violated or r.timed_out:
             common.die_infra("TLC -simulate failed (rc=%s violated=%s):\n%s" % (r.rc, r.violated, r.out[-3000:]))
         for st in scheds:
             sim_total += 1
-            sim_pv_total += 1 if pv else 0
-            h = hashlib.md5(json.dumps([x["a"] for x in st], sort_keys=True).encode()).hexdigest() + str(me) + str(pv)
+            sim_pv_total += 1 if (pv and cc_voters is None) else 0
+            sim_cc_total += 1 if cc_voters is not None else 0
+            h = hashlib.md5(json.dumps([x["a"] for x in st], sort_keys=True).encode()).hexdigest() + str(me) + str(pv) + str(cc_voters)
             if h in seen:
                 continue
             seen.add(h)
-            behaviours.append({"id": ("sim-pv-%d" if pv else "sim-%d") % len(behaviours),
-                               "opt": {"nodes": 3, "voters": [1, 2, 3], "learners": [], "maxents": me, "prevote": pv},
+            behaviours.append({"id": ("sim-cc-%d" if cc_voters is not None else "sim-pv-%d" if pv else "sim-%d") % len(behaviours),
+                               "opt": {"nodes": 3, "voters": cc_voters or [1, 2, 3], "learners": [], "maxents": me, "prevote": pv},
                                "lockstep": True, "steps": st})
-    log("TLC -simulate: %d behaviours (%d distinct; %d with PreVote) of depth 40" % (sim_total, len(behaviours), sim_pv_total))
+    log("TLC -simulate: %d behaviours (%d distinct; %d with PreVote, %d with membership changes) of depth 40-45" % (
+        sim_total, len(behaviours), sim_pv_total, sim_cc_total))
 
     attacks = {}
     if os.path.exists(ATTACK_FILE):
@@ -534,9 +584,12 @@ def main():
     lock_steps = sum(r["compared"] for r in results if r["id"].startswith("sim-"))
     lock_ok_pv = sum(1 for r in results if r["id"].startswith("sim-pv-") and not r["diverged_at"])
     lock_steps_pv = sum(r["compared"] for r in results if r["id"].startswith("sim-pv-"))
+    lock_ok_cc = sum(1 for r in results if r["id"].startswith("sim-cc-") and not r["diverged_at"])
+    lock_steps_cc = sum(r["compared"] for r in results if r["id"].startswith("sim-cc-"))
     atk_skipped = sum(r["skipped"] for r in results if r["id"].startswith("attack-"))
     log("replay: %d behaviours on real RawNodes, lockstep agreed on %d (%d compared steps; of these %d behaviours / %d steps with "
-        "PreVote), diverged %d" % (len(results), lock_ok, lock_steps, lock_ok_pv, lock_steps_pv, len(divergences)))
+        "PreVote, %d behaviours / %d steps with membership changes), diverged %d" % (
+            len(results), lock_ok, lock_steps, lock_ok_pv, lock_steps_pv, lock_ok_cc, lock_steps_cc, len(divergences)))
     rep_parts = []
     for c, (rep_path, _) in enumerate(rep_outs):
         rep_parts += split_trace(rep_path, work, "replay-%d-p" % c, 6000)
@@ -571,14 +624,17 @@ def main():
     log("RaftObs: %d real traces, %d lines, %d mismatches" % (traces, lines_checked, mism_total))
 
     # ---- 5b. B2 results
-    b2_lines = b2_matched = b2_traces = b2_lines_pv = b2_matched_pv = 0
+    b2_lines = b2_matched = b2_traces = b2_lines_pv = b2_matched_pv = b2_lines_cc = b2_matched_cc = 0
     b2_div = []
     for p, cfg, fj in b2_jobs:
         ok, n, matched, r = fj.result()
         if not ok:
             common.die_infra("TraceEtcdRaft failed on %s (rc=%s):\n%s" % (p, r.rc, r.out[-3000:]))
         b2_lines += n
-        if "prevote" in cfg:
+        if "conf" in cfg:
+            b2_lines_cc += n
+            b2_matched_cc += n if (matched >= n and r.rc == 0) else max(0, matched - 1)
+        elif "prevote" in cfg:
             b2_lines_pv += n
             b2_matched_pv += n if (matched >= n and r.rc == 0) else max(0, matched - 1)
         if matched >= n and r.rc == 0:
@@ -598,8 +654,9 @@ def main():
             except Exception:
                 pass
             b2_div.append({"trace": os.path.basename(p), "line": matched, "violated": r.violated, "event": ev})
-    log("B2 trace validation against EtcdRaft.tla: %d/%d lines matched (PreVote runs: %d/%d), %d traces fully accepted, %d rejected" % (
-        b2_matched, b2_lines, b2_matched_pv, b2_lines_pv, b2_traces, len(b2_div)))
+    log("B2 trace validation against EtcdRaft.tla: %d/%d lines matched (PreVote runs: %d/%d, membership-change runs: %d/%d), "
+        "%d traces fully accepted, %d rejected" % (
+            b2_matched, b2_lines, b2_matched_pv, b2_lines_pv, b2_matched_cc, b2_lines_cc, b2_traces, len(b2_div)))
 
     # ---- 6. vacuity guard: corrupted copies of an accepted trace must be rejected
     corr = {}
@@ -617,6 +674,14 @@ def main():
     common.tlc_ok(rpv, MC_PV_CFG + " exhaustive")
     log("TLC " + MC_PV_CFG + " (PreVote = TRUE): %d states generated, %d distinct, depth %d, %.1fs" % (rpv.generated, rpv.distinct, rpv.depth, rpv.wall))
     prevote_states = {"cfg": MC_PV_CFG, "states": rpv.distinct, "transitions": rpv.generated, "depth": rpv.depth, "exhaustive": True}
+    rcc = f_mc_cc.result()
+    common.tlc_ok(rcc, MC_CC_CFG + " exhaustive")
+    log("TLC " + MC_CC_CFG + " (ConfChange = TRUE): %d states generated, %d distinct, depth %d, %.1fs" % (rcc.generated, rcc.distinct, rcc.depth, rcc.wall))
+    conf_states = {"cfg": MC_CC_CFG, "states": rcc.distinct, "transitions": rcc.generated, "depth": rcc.depth, "exhaustive": True}
+    rf = f_mc_cc2.result()
+    common.tlc_ok(rf, MC_CC_CFG2 + " exhaustive")
+    conf_states2 = {"cfg": MC_CC_CFG2, "states": rf.distinct, "transitions": rf.generated, "depth": rf.depth, "exhaustive": True}
+    log("TLC " + MC_CC_CFG2 + " (ConfChange = TRUE): %d states generated, %d distinct, depth %d, %.1fs" % (rf.generated, rf.distinct, rf.depth, rf.wall))
     faults_pv_states = None
     if f_faults_pv is not None:
         rf = f_faults_pv.result()
@@ -697,6 +762,10 @@ def main():
         "prevote_model": prevote_states, "prevote_faults_instance": faults_pv_states,
         "lockstep_behaviours_agreed": lock_ok, "lockstep_steps_compared": lock_steps, "lockstep_divergences": len(divergences),
         "lockstep_prevote_behaviours_agreed": lock_ok_pv, "lockstep_prevote_steps_compared": lock_steps_pv,
+        "confchange_model": conf_states, "confchange_model_2": conf_states2,
+        "lockstep_confchange_behaviours_agreed": lock_ok_cc, "lockstep_confchange_steps_compared": lock_steps_cc,
+        "tlc_simulated_confchange_behaviours": sim_cc_total,
+        "b2_confchange_trace_lines": b2_lines_cc, "b2_confchange_trace_lines_matched_by_spec": b2_matched_cc,
         "tlc_simulated_behaviours": sim_total, "tlc_simulated_prevote_behaviours": sim_pv_total,
         "b2_trace_lines": b2_lines, "b2_trace_lines_matched_by_spec": b2_matched, "b2_traces_accepted": b2_traces, "b2_rejections": len(b2_div),
         "b2_prevote_trace_lines": b2_lines_pv, "b2_prevote_trace_lines_matched_by_spec": b2_matched_pv,
@@ -711,7 +780,8 @@ def main():
     assumptions = [
         "verdict = RaftObs.tla clauses evaluated by TLC on projections of real raft.RawNode state after every event (API granularity; unstable entries are not visible)",
         "disk model: entries, term/vote changes, snapshots and compactions are synced; commit-only HardState writes are not and may be lost in a crash (MustSync)",
-        "EtcdRaft.tla covers fixed membership without snapshots/CheckQuorum, with and without PreVote (PreVote only with CheckQuorum off: no leader lease); membership change, snapshots and CheckQuorum (also combined with PreVote) are exercised only by the random scheduler and judged by RaftObs",
+        "EtcdRaft.tla covers fixed membership and SIMPLE membership changes (one voter added or removed per raftpb.ConfChange / single-change ConfChangeV2, applied when committed; three nodes) without snapshots/CheckQuorum, with and without PreVote (PreVote only with CheckQuorum off: no leader lease); joint configurations, learners, auto-leave, snapshots and CheckQuorum (also combined with PreVote) are exercised only by the random scheduler and judged by RaftObs",
+        "raft.pendingConfIndex is not visible through RawNode.Status: the lockstep replay observes it through its effect (a refused conf change is appended as an empty normal entry); a restarted node starts from the genesis configuration (raftsim's storage has no snapshot in these runs) and re-applies every committed conf change",
         "proposal forwarding disabled, MaxInflightMsgs=256, MaxSizePerMsg unlimited or one entry; ReadIndex and leader transfer not exercised",
         "election timeouts are not simulated with the package RNG: Campaign() is an explicit event, followers tick with TickQuiesced",
         "ReadyWindow: the node under test is a follower that is never asked for its vote (five voters, the four others elect the leaders); leaders' logs per behaviour from a fixed family (quick: 2 families of 2 leaders; thorough: 3 families of 2 and 4 families of 3 leaders replayed, all 127 families with logs <= 3 model-checked); log compaction by the application and the node's own leadership are outside this specification",
